@@ -115,10 +115,15 @@ def peel(le, lg, facts, labels, got_raised=False):
             # M4: `*a, b = [x, y]` is rewritten into assignments evaluated from right to left
             if f[0] == 'starunpack' and ka is not None and kb is not None and f[1] <= ka <= f[2] and f[1] <= kb <= f[2]:
                 drop = lambda e, f=f: ev_key(e) is not None and f[1] <= ev_key(e) <= f[2]
-                if got_raised or sorted(map(repr, filter(drop, le))) == sorted(map(repr, filter(drop, lg))):
+                same = sorted(map(repr, filter(drop, le))) == sorted(map(repr, filter(drop, lg)))
+                same_norm = same or sorted(map(_norm, filter(drop, le))) == sorted(map(_norm, filter(drop, lg)))
+                if got_raised or same_norm:
                     le = [e for e in le if not drop(e)]
                     lg = [e for e in lg if not drop(e)]
                     mechs.add('starred-unpack-of-display-reordered')
+                    if not same and not got_raised:
+                        # a bool subscript of one of the reordered targets additionally arrives as an int (own mechanism)
+                        mechs.add('value:bint-index-arrives-as-int')
                     hit = True
                     break
         if hit:
